@@ -243,6 +243,7 @@ func c17Transition(p *run.Part) func(w *seqx.World, pre *seqx.Pre, op seqx.Op, s
 			for k := first + 1; k <= nAdds; k++ {
 				crashOne(p, w.Cfg, c, k)
 				transientOne(p, w.Cfg, c, k)
+				transientOne(p, w.Cfg, c, k+threeInARow)
 			}
 			if op.Pin {
 				transientOne(p, w.Cfg, c, pinFailure)
@@ -335,7 +336,13 @@ func transientOne(p *run.Part, cfg *seqx.Config, c seqx.Case, k int) {
 	op := c.Path[len(c.Path)-1]
 	cc := crashCase{c, -k}
 	desc := fmt.Sprintf("after %s with block write #%d failing once", path, k)
-	if k == pinFailure {
+	if k >= threeInARow && k < pinFailure {
+		// the same write fails three times in a row (a library that retries twice sees nothing but failures)
+		k -= threeInARow
+		w.St.FailAddOnly = calls + (k - len(w.St.Adds))
+		w.St.FailAddCount = 3
+		desc = fmt.Sprintf("after %s with block write #%d failing three times in a row", path, k)
+	} else if k == pinFailure {
 		w.St.FailPinOnce = true
 		desc = fmt.Sprintf("after %s with the pin request of the last append failing", path)
 	} else {
@@ -389,6 +396,9 @@ func transientOne(p *run.Part, cfg *seqx.Config, c seqx.Case, k int) {
 
 // pinFailure as k: not a block write but the pin request of a pinned append fails
 const pinFailure = 1 << 20
+
+// threeInARow + k as k: block write k and its next two attempts fail
+const threeInARow = 1 << 16
 
 type crashCase struct {
 	seqx.Case
